@@ -2116,7 +2116,13 @@ func (a *Authenticator) handleClientAuthentication(ctx context.Context, negotiat
 	// Check if it's "YES" or if the negotiated auth method is not NONE
 
 	if !authRequired {
+		// The server will not authenticate. That is only acceptable if our own
+		// policy does not demand it; never report authentication that did not run.
+		if a.config.Authentication == SecurityRequired {
+			return fmt.Errorf("client requires authentication but server declined to authenticate")
+		}
 		slog.Debug("🔐 CLIENT: No authentication required", "destination", "cedar")
+		negotiation.Authentication = false
 		return nil
 	}
 
@@ -2207,6 +2213,12 @@ func (a *Authenticator) handleClientAuthentication(ctx context.Context, negotiat
 			break
 		}
 
+		// The server must pick one of the methods we offered in this round;
+		// anything else is a protocol violation, not a method to run.
+		if serverResponse&availableBitmask != serverResponse {
+			return fmt.Errorf("server selected authentication method 0x%x that was not offered (0x%x)", serverResponse, availableBitmask)
+		}
+
 		// Convert server response to method
 		selectedMethod := bitmaskToAuthMethod(serverResponse)
 		if selectedMethod == "" {
@@ -2232,6 +2244,7 @@ func (a *Authenticator) handleClientAuthentication(ctx context.Context, negotiat
 
 		slog.Debug(fmt.Sprintf("✅ CLIENT: Authentication successful with method: %s", selectedMethod), "destination", "cedar")
 		negotiation.NegotiatedAuth = selectedMethod
+		negotiation.Authentication = true
 
 		// After successful authentication, perform key exchange as in HTCondor's Authentication::exchangeKey
 		// For modern HTCondor with AESGCM crypto, the server always sends an empty key
